@@ -78,6 +78,9 @@ func decorate(r *rand.Rand, index int, s reconlib.Scenario) reconlib.Scenario {
 		f.CutResumeOf, f.RefuseResumeOf = 0, 0
 		s.SlowLog, s.SlowLogMs = "Succeeded in resuming upstream", 10000
 	}
+	if r.Intn(4) == 0 {
+		s.CloseFails = "broken" // closing a transport whose link is already broken reports an error
+	}
 	return s
 }
 
